@@ -509,7 +509,8 @@ func (i *Interp) callSSA(caller *frame, fn *ssa.Function, args []value, env []va
 // stubbed or harnessed separately.
 var skipInit = map[string]bool{
 	modulePath + "/internal/flags":     true, // pflag registration and parsing of os.Args
-	modulePath + "/internal/templater": true, // template function table (templater is stubbed)
+	// internal/templater: only its explicit init() (go-task's own function table: shellQuote,
+	// q, splitLines, ...) is run, with the sprig table empty; see initPkg
 	modulePath + "/taskfile":           true, // chroma style registration
 	"runtime":                          true,
 	"syscall":                          true,
@@ -530,6 +531,9 @@ func (i *Interp) initPkg(p *ssa.Package) {
 		return
 	}
 	initFn := p.Func("init")
+	if p.Pkg.Path() == modulePath+"/internal/templater" {
+		initFn = p.Func("init#1")
+	}
 	if initFn == nil {
 		return
 	}
